@@ -17,11 +17,14 @@ from harness.lib.core import Rng
 
 
 def enc(k: Any) -> str:
-    """wire form of one request element (ints and strs are different dictionary keys in Python)."""
+    """wire form of one request element (ints and strs are different dictionary keys in Python; `True`, `1` and `1.0` are
+    the SAME key: they compare equal and hash alike, so `request_types[True]` finds NIC number 1)."""
     if isinstance(k, bool):
-        return "b:" + str(k)
+        return "i:" + str(int(k))
     if isinstance(k, int):
         return "i:" + str(k)
+    if isinstance(k, float) and k == k and k not in (float("inf"), float("-inf")) and k == int(k):
+        return "i:" + str(int(k))
     if isinstance(k, str):
         return "s:" + quote(k, safe="")
     return "o:" + quote(json.dumps(k, sort_keys=True, default=str), safe="")
